@@ -51,7 +51,7 @@ P = {
 
 NORMAL = (" All rules run on the tree after semantics-preserving normal forms (expansion of helpers that are not in the frozen inventory of the"
           " reference tree and of fourteen small reference helpers, expansion of local aliases of final attributes, folding of single-use temporaries, folding of"
-          " newly introduced named constants, binding of newly added keyword parameters nobody passes, hoisting of module-level state a new helper declares global), so extract-method / inline-method / alias / temporary /"
+          " newly introduced named constants, binding of newly added keyword parameters nobody passes, hoisting of module-level state a new helper declares global, splitting of newly introduced generator-based context managers into enter / exit helpers), so extract-method / inline-method / alias / temporary /"
           " named-constant / added-parameter changes do not change the verdict. No repository code is imported or executed.")
 
 
@@ -85,12 +85,33 @@ EXTRA = {
 }
 
 
+# rules added after the audit of the unchanged tree and seeded round 7 (DESIGN 9.6-9.8)
+EXTRA2 = {
+    "C02": "where an OSError raised by a body write lands in handle(), and handle_error evaluated with the mark send_headers leaves on the request (no error page / second record after the head)",
+    "C04": "spawn_worker evaluated for fork() == 0 with the signal-mask / handler calls traced in order (stop signals blocked or the child's own from fork() to init_process()); eventlet's graceful wait evaluated with two rule-supplied acceptors (idle + serving): every acceptor waited for",
+    "C06": "the header cap as a property of the stream (Request.parse evaluated from after a read for buffers of cap+1..3 bytes without terminator and terminators found at cap / cap+1); structural: a branch on the parser's buffered input before the threaded worker parks a connection",
+    "C08": "ambiguity invariant on every accepted header list (no two spellings of one environ key outside header_map=dangerous); forwarder pipeline Message.__init__ -> parse_headers -> header loop of create() evaluated end to end for 81 cells of header_map x peer x allow list x forwarder_headers",
+    "C09": "late OSError routing (shared with C02)",
+    "C11": "the first heartbeat stamp on the scanner's clock (in WorkerTmp.__init__, or by every constructor site right after construction); workers judged by their own generation's timeout",
+    "C12": "mixed kept / dropped fields against one field limit; the header cap as a property of the stream (see C06)",
+    "C13": "graceful wait evaluated with two rule-supplied futures (running + queued): the first futures.wait of every path is given both; the lost-race path (connection already reaped) evaluated; structural: connections still registered with the poller are dispatched or closed before run() returns",
+    "C14": "the hand-off as a round trip in both modes: start() evaluated in the very environment reexec() writes (os.environ as a dict, systemd.listen_fds per the sd_listen_fds protocol) must arrive at the descriptors the listeners really have",
+    "C15": "'//'-prefixed request-targets with control bytes; repeated-field joins incl. an empty earlier value; SCRIPT_NAME as a prefix of path segments",
+    "C16": "structural: a setting read off the parsed command-line namespace by an application hook is matched by a read of the merged configuration in that class's load_config",
+    "C17": "structural: an exclusive step (flock / link / O_EXCL) between the check of the existing pid file and the publication of the own one",
+    "C19": "where an OSError raised by a body write lands and what handle_error does for a started response (shared with C02)",
+    "C20": "identity-table rows where the user has no passwd entry (pwd.getpwuid raises: a rule-supplied raising atom) and rows with real != effective ids",
+}
+
+
 def main():
     checks = []
     for pid in sorted(P):
         ref, tech, text = P[pid]
         if pid in EXTRA:
             tech = tech + "; evaluated tables: " + EXTRA[pid] + "."
+        if pid in EXTRA2:
+            tech = tech + " Also: " + EXTRA2[pid] + "."
         tech = tech + NORMAL
         checks.append({
             "property_id": pid,
